@@ -44,6 +44,22 @@ Dimensions 10-12 (no clause of their own: the clauses above are evaluated on the
 A chart without any object is written with an empty data field; StepMania reads that as a chart without rows, so `den_sm`'s
 "a measure has 4k > 0 rows" is not applied to such a chart (its data is read as one empty measure).
 Time clauses of rated mapsets carry the suffix `.rate` so the consequences of an unscaled #OFFSET stay apart.
+Dimensions 14-18:
+  14  `all_fields`: EVERY header attribute (all 16 text tags incl. bg / fg changes, display bpm, lyrics path, cd title, banner ...,
+      the sample window) and every chart header field (description, difficulty, meter, the five radar values) is set to a value
+      that is non-default, non-empty and different from every sibling field, on mapsets of every origin;
+  15  write_leaves_mapset_unchanged also compares the dtype of every column (and the row labels' dtype) of every list of every
+      chart and the type of every header / chart attribute, on fresh / rated / stack-edited / appended-to mapsets;
+  16  `all_fields.special`: header texts that are special values elsewhere in the format (`NO`, `YES`, `*`, `0`, `0.000=120`,
+      `dance-single`, `Edit`, `0,0,0,0,0`) as ordinary text of other fields;
+  17  a tempo point after the last object / objects on the first tempo point are drawn by the generators already; objects before
+      the first tempo point cannot be written in an .sm (beat < 0): outside the domain; the osu / Quaver sources of the fine_tempo
+      cases carry scroll-velocity points ON the first tempo point and after the last object (`src_svs`);
+  18  `fine_tempo`: tempo changes at whole beat + p/q, q from 24, 32, 48, 64, 96, 5, 7, 9 (positions of the default 1..96 snap grid
+      that no coarse grid holds), neighbouring tempos at least 1.5 : 1, an object shortly after every change.
+  tempo_changes_within_grid   every tempo point of the mapset is in the text's #BPMS, with its bpm, at its time to within 1/96 beat
+      at the slower of the tempos on its two sides (the two-decimal beats of known finding N5 move a change by <= 0.005 beat,
+      half of that; what N5 does to the OBJECTS after the change stays in object_times_within_grid)
 """
 from __future__ import annotations
 
@@ -104,6 +120,17 @@ RATES_WIDE = (0.1, 1 / 3, 3, 10, 0.999)
 SHIFTS_MS = (250, -1118, 1000, 0.375, -0.5, 3600000)
 SHIFT_HOW = ("stack", "list_property", "new_lists")
 FILE_BEFORE = (None, "empty", "longer", "shorter", "other_mapset")
+# dimension 14: one value per header attribute, all different, none a default
+ALL_HEADER = dict(
+    title="Ttl 1", subtitle="Sub 2", artist="Art 3", title_translit="Ttl-t 4", subtitle_translit="Sub-t 5", artist_translit="Art-t 6", genre="Genre 7", credit="Credit 8",
+    banner="bn 9.png", background="bg 10.jpg", lyrics_path="ly 11.lrc", cd_title="cd 12.png", music="mu 13.ogg", display_bpm="165.5",
+    bg_changes="0.000=bg.avi=1.000=1=0=0", fg_changes="4.000=fg.avi=1.000=0=0=1,8.000=fg2.png=1.000=1=1=0",
+)
+PLAIN_ATTRS = tuple(a for a in ALL_HEADER if a not in ("display_bpm", "bg_changes", "fg_changes"))
+# dimension 16: values that are special somewhere else in the format, as the ordinary text of a header field
+SPECIAL_TEXT = ("NO", "YES", "*", "0", "0.000=120", "dance-single", "Edit", "0,0,0,0,0", "NOTES", "-0.0")
+# dimension 18: positions of a tempo change inside a beat that only the fine (default, 1..96) snap grid holds
+FINE_TEMPO_DENS = (24, 32, 48, 64, 96, 5, 7, 9)
 
 # ============================================================================= in-memory mapsets
 
@@ -116,36 +143,66 @@ def snapshot(ms):
         sample_start=float(ms.sample_start),
         sample_length=float(ms.sample_length),
         selectable=ms.selectable,
-        charts=[dict(header=chart_header(m), objects=map_objects(m), tempo=map_tempo(m)) for m in ms.maps],
+        charts=[dict(header=chart_header(m), objects=map_objects(m), tempo=map_tempo(m), types=_chart_types(m)) for m in ms.maps],
+        types={attr: type(getattr(ms, attr)).__name__ for attr in list(TEXT_TAGS.values()) + ["offset", "sample_start", "sample_length", "selectable"]},
     )
 
 
-def gen_built(rng, integral=False, convert=None):
+def _chart_types(m):
+    """The dtype of every column (and of the row labels) of every list the chart holds, the type of every header attribute."""
+    out = {}
+    for name, lst in m.objs.items():
+        df = lst.df
+        out[name] = dict({str(c): str(df[c].dtype) for c in df.columns}, **{"<row labels>": str(df.index.dtype)})
+    for attr in ("chart_type", "description", "difficulty", "difficulty_val", "groove_radar"):
+        v = getattr(m, attr)
+        out["." + attr] = type(v).__name__ + ("[" + ",".join(type(x).__name__ for x in v) + "]" if isinstance(v, (list, tuple)) else "")
+    return out
+
+
+def _two_decimal_error(f):
+    return abs(float(f) - round(float(f), 2))
+
+
+def gen_built(rng, integral=False, convert=None, fine_tempo=False):
     """Spec of a mapset built list by list: shared tempo list (on measure lines, or anywhere on the grid), objects of
     every kind at positions `segment start + k/d` beats, leading and intermediate empty measures, measures that need
     more than 384 rows; charts without any object; rows of every list in any order and under any row labels; header
     attributes left at their defaults.  `integral`: every time is a whole number of ms (the lists are then built from
     python ints: int64 columns).  `convert`: the spec of a source chart for a *ToSM converter (one chart, hits and
-    holds, its highest column in use)."""
-    on_measure = rng.random() < 0.5
+    holds, its highest column in use).  `fine_tempo` (dimension 18): at least two tempo points, every change at whole beat + p/q
+    with q from FINE_TEMPO_DENS (of three draws the one whose two-decimal rendering is closest), neighbouring tempos at
+    least 1.5 : 1, an object shortly after every change."""
+    on_measure = rng.random() < 0.5 and not fine_tempo
     n_charts = 1 if convert else rng.choice((1, 1, 2, 3))
     n_meas = rng.randrange(2, 8)
     n_t = min(rng.randrange(1, 5), n_meas)
+    if fine_tempo:
+        n_t = max(n_t, 2)
     coarse = (1, 2, 4) if integral else COARSE
     starts = {Fraction(0)}
     while len(starts) < n_t:
         if on_measure:
             starts.add(Fraction(4 * rng.randrange(1, n_meas + 1)))
+        elif fine_tempo:
+            fr = []
+            for _ in range(3):
+                d = rng.choice(FINE_TEMPO_DENS)
+                fr.append(Fraction(rng.choice([k for k in range(1, d) if gcd(k, d) == 1]), d))
+            starts.add(rng.randrange(0, 4 * n_meas) + min(fr, key=_two_decimal_error))
         else:
             starts.add(Fraction(rng.randrange(1, 4 * n_meas * 48), rng.choice((1, 2, 4) if integral else (1, 2, 3, 4, 6, 12, 16, 48))) % (4 * n_meas) or Fraction(2))
     if integral:
         starts = {Fraction(floor(b * 4), 4) for b in starts}
     starts = sorted(starts)
     # "contrast": strongly different neighbouring tempos and an object shortly after every change
-    contrast = (not on_measure) and (not integral) and rng.random() < 0.4
+    contrast = (not on_measure) and (not integral) and rng.random() < 0.4 and not fine_tempo
     tempo, prev = [], None
     for i, b in enumerate(starts):
-        v = ("60", "333")[i % 2] if contrast else rng.choice([x for x in (BPM_INT if integral else BPM_POOL) if x != prev])
+        if fine_tempo:
+            v = rng.choice([x for x in BPM_POOL if prev is None or max(Fraction(x), Fraction(prev)) >= Fraction(3, 2) * min(Fraction(x), Fraction(prev))])
+        else:
+            v = ("60", "333")[i % 2] if contrast else rng.choice([x for x in (BPM_INT if integral else BPM_POOL) if x != prev])
         tempo.append([str(b), v])
         prev = v
     charts = []
@@ -154,7 +211,7 @@ def gen_built(rng, integral=False, convert=None):
         keys = SM_KEYS[typ]
         lead = 0 if convert == "qua" else rng.choice((0, 0, 1, 2, 3))
         used = sorted(rng.sample(range(lead, lead + n_meas), rng.randrange(1, min(4, n_meas) + 1)))
-        if contrast:
+        if contrast or fine_tempo:
             used = sorted(set(used) | {floor(b / 4) for b in starts[1:]})
         free_from = [Fraction(0)] * keys
         objs = []
@@ -178,7 +235,7 @@ def gen_built(rng, integral=False, convert=None):
                 seg = max(s for s in starts if s <= p) if p >= 0 else Fraction(0)
                 q = seg + Fraction(floor((p - seg) * d), d)
                 cand.add(q)
-            if contrast:
+            if contrast or fine_tempo:
                 cand |= {b + Fraction(1, rng.choice((2, 4, 8, 16))) for b in starts[1:] if floor(b / 4) == m}
             for p in sorted(cand):
                 cols = [c for c in range(keys) if free_from[c] <= p]
@@ -219,6 +276,8 @@ def gen_built(rng, integral=False, convert=None):
     t0_pool = T0_INT if integral else T0_POOL + T0_EXTRA
     sample_pool = tuple(int(x) for x in SAMPLE_MS) if integral else SAMPLE_MS + SAMPLE_EXTRA
     spec = dict(t0_ms="0" if convert == "bms" else rng.choice(t0_pool), tempo=tempo, charts=charts, header=header, sample_start=rng.choice(sample_pool), sample_length=rng.choice(sample_pool), on_measure=on_measure, contrast=contrast)
+    if fine_tempo:
+        spec["fine_tempo"] = True
     if rng.random() < 0.2:
         spec["sample_defaults"] = True  # sample_start / sample_length never set
     if len(tempo) > 1 and rng.random() < 0.3:
@@ -371,6 +430,15 @@ def build_converted(spec, source):
         src.title, src.artist = title, artist
     if source == "osu":
         src.preview_time = int(spec["sample_start"])
+    if spec.get("src_svs") and source in ("osu", "qua"):
+        # dimension 17: another kind of list in the source, its first element ON the first tempo point, its last after every
+        # object and tempo point (StepMania has no scroll velocities: nothing of them may reach the mapset)
+        if source == "osu":
+            from reamber.osu.lists.OsuSvList import OsuSvList as S
+        else:
+            from reamber.quaver.lists.QuaSvList import QuaSvList as S
+        last = max([Fraction(b) for b, _ in spec["tempo"]] + [Fraction(p) + Fraction(ln) for _, _, p, ln in ch["objects"]])
+        src.svs = S.from_dict([dict(offset=ms_of(Fraction(0)), multiplier=num(0.5)), dict(offset=ms_of(last + 3), multiplier=num(2))])
     out = conv.convert(src)
     return out[0] if isinstance(out, list) else out
 
@@ -455,6 +523,13 @@ def make_mapset(case, notes=None):
         ms = build_mapset(case["spec"])
     for attr, val in (case.get("header_colon") or {}).items():
         setattr(ms, attr, val)
+    af = case.get("all_fields")
+    if af:
+        for attr, val in af["header"].items():
+            setattr(ms, attr, val)
+        ms.sample_start, ms.sample_length = af["sample_start"], af["sample_length"]
+        for m, ch in zip(ms.maps, af["charts"]):
+            m.description, m.difficulty, m.difficulty_val, m.groove_radar = ch["desc"], ch["diff"], ch["meter"], list(ch["radar"])
     ms.selectable = case["selectable"]
     pre = None
     if abs(float(ms.offset) - map_tempo(ms.maps[0])[0][0]) > 1e-9 or any(map_tempo(m) != map_tempo(ms.maps[0]) for m in ms.maps):
@@ -580,6 +655,12 @@ def _compare_charts(snap, d, sfx):
             fails.append(("chart_header_fields", f"chart {k}: mapset {want_h}, text {got_h}"))
         tl = Timeline(sc["tempo"])
         tl_text = Timeline([(float(t), float(v)) for t, v in dc["tempo"]])
+        for i, (t, v) in enumerate(sc["tempo"]):
+            allowed = 60000 / min(tl.v[max(i - 1, 0)], v) / 96 + TOL_MS
+            near = [x for x, w in zip(tl_text.t, tl_text.v) if abs(w - v) <= 1e-9 * v]
+            if not near or min(abs(x - t) for x in near) > allowed:
+                fails.append(("tempo_changes_within_grid" + sfx, f"chart {k}: tempo point {i} of the mapset, {v} bpm at {t} ms (beat {round(tl.b[i], 5)}): " + (f"the nearest #BPMS entry with that bpm is at {min(near, key=lambda x: abs(x - t))} ms, allowed {round(allowed, 4)} ms" if near else "no #BPMS entry with that bpm") + f"; #BPMS denotes {list(zip(tl_text.t, tl_text.v))[:6]}"))
+                break
         want, got = sc["objects"], den_objects(dc)
         times = [t for kind in NOTE_KINDS for _, t, ln in want[kind] for t in ((t, t + ln) if kind in ("holds", "rolls") else (t,))]
         exact = exact_measures(tl, times)
@@ -596,9 +677,9 @@ def _compare_charts(snap, d, sfx):
                         continue  # not representable on the snap grid: outside the property's domain, nothing asserted
                     bt = tl.beat(a)
                     is_exact = floor(round(bt, 6) / 4) in exact
-                    what = ("object_times_exact" if is_exact else "object_times_within_grid") + sfx
                     # local tempo: where the object is in the mapset's tempo list, or where the text has put it
                     tol = TOL_MS if is_exact else max(tl.grid_tol(a), tl_text.grid_tol(b)) + TOL_MS
+                    what = ("object_times_exact" if is_exact else "object_times_within_grid") + sfx
                     if not abs(a - b) <= tol and what not in done:
                         done.add(what)
                         fails.append((what, f"chart {k} {label}{kind} column {wc}: mapset {a} ms (beat {round(bt, 5)} of the tempo list), text {b} ms, difference {round(b - a, 4)} ms, allowed {round(tol, 4)} ms"))
@@ -691,6 +772,10 @@ def _snapshot_diff(a, b):
             return f"{k}: {a[k]!r} before, {b[k]!r} after write()"
     for i, (x, y) in enumerate(zip(a["charts"], b["charts"])):
         for k in x:
+            if k == "types" and x[k] != y[k]:
+                for name in x[k]:
+                    if x[k][name] != y[k].get(name):
+                        return f"chart {i}, types of {name}: {x[k][name]} before, {y[k].get(name)} after write()"
             if x[k] != y[k]:
                 return f"chart {i} {k}: {str(x[k])[:200]} before, {str(y[k])[:200]} after write()"
     return f"{len(a['charts'])} charts before, {len(b['charts'])} after write()"
@@ -819,7 +904,59 @@ def gen_write_case(rng, i):
         attrs = [a for a in TEXT_TAGS.values() if a not in ("bg_changes", "fg_changes", "display_bpm")]
         case["header_colon"] = {a: rng.choice(TEXT_COLON) for a in rng.sample(attrs, rng.choice((1, 1, 2)))}
     _add_history(case)
+    _add_all_fields(case)
     return case
+
+
+def _sub_rng(case, salt):
+    """A stream of its own per case and purpose, a function of the case drawn from rep.rng (the cases of earlier versions of
+    the generator stay what they were)."""
+    import json
+    import random
+
+    return random.Random(salt + json.dumps({k: v for k, v in case.items() if k != "all_fields"}, sort_keys=True, default=str))
+
+
+def _add_all_fields(case):
+    """Dimensions 14 and 16 on top of the case: every header attribute, the sample window and every chart header field set
+    (by plain attribute assignment on the finished mapset, whatever its origin) to non-default values that differ from
+    every sibling; `permuted`: the plain texts in another assignment; `special`: four of them values that are special
+    elsewhere in the format."""
+    sub = _sub_rng(case, "all_fields")
+    if sub.random() >= 0.3 or case.get("header_colon"):
+        return
+    mode = sub.choice(("plain", "permuted", "permuted", "special"))
+    header = dict(ALL_HEADER)
+    if mode != "plain":
+        vals = [header[a] for a in PLAIN_ATTRS]
+        sub.shuffle(vals)
+        header.update(zip(PLAIN_ATTRS, vals))
+    if mode == "special":
+        header.update(zip(sub.sample(PLAIN_ATTRS, 4), sub.sample(SPECIAL_TEXT, 4)))
+        header["display_bpm"] = sub.choice(("*", "0", "120"))
+    n = 1 if case["origin"] == "converted" else len(case["spec"]["charts"])
+    r = sub.randrange(6)
+    charts = [dict(desc=f"desc {k + 1} of {n}", diff=DIFFS[(k + r) % len(DIFFS)], meter=11 + 3 * k, radar=[k + 0.125, 0.25, 0.5, 0.75, 0.875]) for k in range(n)]
+    integral = case["spec"].get("numeric") == "int"
+    case["all_fields"] = dict(mode=mode, header=header, sample_start=12345 if integral else 12345.5, sample_length=6789 if integral else 6789.25, charts=charts)
+
+
+def gen_fine_tempo_case(case, force=False):
+    """Dimension 18: for the first 8 and 15% of the other cases one MORE case (a function of that case): a mapset built in memory, or made by the
+    osu / Quaver -> SM converters, whose tempo changes sit at whole beat + p/q, q from FINE_TEMPO_DENS."""
+    sub = _sub_rng(case, "fine_tempo")
+    if sub.random() >= 0.15 and not force:
+        return None
+    source = sub.choice((None, None, None, "osu", "qua"))
+    extra = dict(origin="converted" if source else "built")
+    if source:
+        extra["source"] = source
+    extra.update(selectable=sub.random() >= 0.4, rate=sub.choice(RATES) if sub.random() < 0.3 else None, entry_points=False, spec=gen_built(sub, convert=source, fine_tempo=True), sequence=None)
+    if source:
+        extra["spec"]["src_svs"] = True
+    _add_history(extra)
+    _add_all_fields(extra)
+    return extra
 
 
 def _add_history(case):
@@ -866,20 +1003,22 @@ def sm_write_vs_interpreter(rep):
         "25%: write_file with a str / pathlib.Path, onto a path that does not exist / holds an empty / a longer / a shorter file / another mapset's file that has been read from there, then read_file of it; "
         f"HISTORY of the object: 60% of the rated ones were written (write / write_file) BEFORE rate(); 35% of all are CHANGED IN PLACE before the observed write, 80% of those after an earlier write of the same object "
         f"(all times moved by one of {list(SHIFTS_MS)} ms through stack().offset / every list's offset property / newly assigned lists, together with #OFFSET; every bpm scaled by 2 / 0.5 / 3 through the stack / the list property; "
-        f"a hit appended whole measures after the end); 15% of the rated ones with a rate from {[round(x, 4) for x in RATES_WIDE]}"
+        f"a hit appended whole measures after the end); 15% of the rated ones with a rate from {[round(x, 4) for x in RATES_WIDE]}; "
+        "ALL FIELDS (30%, every origin): all 16 header text attributes incl. bg / fg changes, display bpm, lyrics path, cd title, the sample window and every chart's description / difficulty / meter / five radar values set to non-default values that all differ "
+        f"(a quarter of them with four header texts from {list(SPECIAL_TEXT)}: values that are special elsewhere in the format); the before / after write() comparison includes every column's dtype, the row labels' dtype and every attribute's type; "
+        f"FINE TEMPO GRID: for the first 8 and 15% of the other cases one more mapset (built, or made by OsuToSM / QuaToSM; 30% rated) with 2-4 tempo points, every change at whole beat + p/q, q from {list(FINE_TEMPO_DENS)}, neighbouring tempos >= 1.5 : 1, an object 1/2 .. 1/16 beat after every change"
     )
     rep.rule = "a case is one mapset with its history (earlier writes, rate, edits in place) and the observed write; every clause is about the mapset as it is at the observed write; non-trivial when read from a file or holding at least 3 objects"
     kinds = {}
-    for i in range(N):
-        if rep.out_of_time(35, 600):
-            break
-        case = gen_write_case(rng, i)
+
+    def one(case):
         origin, spec = case["origin"], case["spec"]
         key = origin + ("+rate" if case["rate"] else "") + ("" if origin == "read" else ("/on_measure" if spec["on_measure"] else "/off_measure"))
         kinds[key] = kinds.get(key, 0) + 1
         for flag, on in (("empty_chart", origin != "read" and any(not c["objects"] for c in spec["charts"])), ("int_typed", spec.get("numeric") == "int"), ("header_colon", bool(case.get("header_colon"))), ("rows_not_in_time_order", origin != "read" and spec["rows"]["notes_order"] != "time"), ("labels_not_default", origin != "read" and (spec["rows"]["notes_labels"] != "default" or spec["rows"]["tempo_labels"] != "default")),
                          ("written_before_rate", bool(case.get("before"))), ("edited_after_a_write", bool((case.get("edit") or {}).get("after"))), ("edited_" + (case.get("edit") or {}).get("op", ""), bool(case.get("edit"))),
-                         ("file_before_" + str(case.get("file_before")), "file_before" in case), ("rate_wide", case["rate"] in RATES_WIDE)):
+                         ("file_before_" + str(case.get("file_before")), "file_before" in case), ("rate_wide", case["rate"] in RATES_WIDE),
+                         ("all_fields_" + (case.get("all_fields") or {}).get("mode", ""), bool(case.get("all_fields"))), ("fine_tempo", origin != "read" and bool(spec.get("fine_tempo")))):
             if on:
                 kinds[flag] = kinds.get(flag, 0) + 1
         rep.case(case, nontrivial=_nontrivial(case))
@@ -890,6 +1029,15 @@ def sm_write_vs_interpreter(rep):
                 full["text"] = render(spec)
             for what, det in fails:
                 rep.fail(what, full, det)
+
+    for i in range(N):
+        if rep.out_of_time(35, 600):
+            break
+        case = gen_write_case(rng, i)
+        one(case)
+        extra = gen_fine_tempo_case(case, force=i < 8)
+        if extra:
+            one(extra)
     rep.extra["origins"] = kinds
 
 
